@@ -212,6 +212,12 @@ let handle_glob words =
     text ^ " " ^ String.concat "" codes
   | _ -> "badcase"
 
+(* rxwrap ext pattern(cps) -> inside_group text (cps) *)
+let handle_rxwrap words =
+  match words with
+  | [ext; pat] -> show_cps (RegexWrap.inside_group (ext = "1") (cps pat))
+  | _ -> "badcase"
+
 (* ---- paths ---- *)
 let hexlist l = if l = [] then "~" else String.concat "," (Stdlib.List.map hex_of_bytes l)
 let bl s = Stdlib.List.map bytes_of_hex (list_of s)
@@ -417,7 +423,7 @@ let handle_args words =
   | _ -> "badcase"
 
 let handlers : (string * (string list -> string)) list ref =
-  ref [ ("xread", handle_xread); ("xargs", handle_xargs); ("xrepl", handle_xrepl); ("xnorm", handle_xnorm); ("walk", handle_walk); ("expr", handle_expr); ("num", handle_num); ("glob", handle_glob); ("paths", handle_paths); ("delete", handle_delete); ("execm", handle_execm); ("limits", handle_limits); ("entry", handle_entry); ("regex", handle_regex); ("printf", handle_printf); ("pv", handle_pv); ("args", handle_args) ]
+  ref [ ("xread", handle_xread); ("xargs", handle_xargs); ("xrepl", handle_xrepl); ("xnorm", handle_xnorm); ("walk", handle_walk); ("expr", handle_expr); ("num", handle_num); ("glob", handle_glob); ("rxwrap", handle_rxwrap); ("paths", handle_paths); ("delete", handle_delete); ("execm", handle_execm); ("limits", handle_limits); ("entry", handle_entry); ("regex", handle_regex); ("printf", handle_printf); ("pv", handle_pv); ("args", handle_args) ]
 
 let () =
   try while true do
